@@ -12,7 +12,7 @@ RULE = ('two real J1939-22 stacks; a generated sequence of 1..12 send_pgn calls 
         'time_limit in {0, 1..200 ms}, FEFF end to end and FBFF decoded on the bus by the reference codec only, issued from the application context or '
         'from a timer callback at instants drawn over the job thread\'s sleep; every frame on the bus is decoded independently and matched against the '
         'submissions. non-trivial = at least one group was sent with a time limit (buffered); distinct = distinct scenario JSON')
-FAULT_COUNTERS = {'send_pgn issued from a timer callback (job-thread context)': 'timer_ctx_groups', 'buffer-full flushes': 'full_buffer_flushes'}
+FAULT_COUNTERS = {'send_pgn from inside the stack\'s own transmission (submission while the job thread flushes)': 'nested_submissions', 'send_pgn issued from a timer callback (job-thread context)': 'timer_ctx_groups', 'buffer-full flushes': 'full_buffer_flushes'}
 REQUIRED_PROBES = ['groups', 'buffered_groups', 'combined_frames', 'fbff_groups', 'timer_ctx_groups', 'full_buffer_flushes']
 FEFF, FBFF = 3, 2
 
@@ -46,6 +46,12 @@ def generate(rng, tier, i):
             c['ff'] = FBFF
         calls.append(c)
     scn['calls'] = calls
+    # some calls are made from inside the stack's own k-th transmission: an application thread submitting at the very
+    # instant the job thread is flushing a buffer (or a backend that calls back)
+    if len(calls) > 1 and rng.random() < 0.3:
+        for c in rng.sample(calls[1:], min(len(calls) - 1, rng.randint(1, 2))):
+            c['on_tx'] = rng.choice([0, 0, 1, 1, 2, 3])
+            c['ctx'] = 'app'
     return scn
 
 
@@ -58,7 +64,7 @@ def execute(scn, keep_log=False, hook=None):
     S = w.stacks['S']
     viol = []
     stats = {'groups': 0, 'buffered_groups': 0, 'combined_frames': 0, 'fbff_groups': 0, 'timer_ctx_groups': 0, 'full_buffer_flushes': 0,
-             'mpg_frames': 0}
+             'mpg_frames': 0, 'nested_submissions': 0}
     t0 = sim.now
     sim.run_for(0.02)
     pending = []        # submissions not yet seen on the bus
@@ -137,7 +143,30 @@ def execute(scn, keep_log=False, hook=None):
                 exp[('R', l, cpgn, sa, bytes(data))] += 1
 
     base = sim.now
+    txn = [0]
+    nest = [0]
+    pend = [c for c in scn['calls'] if c.get('on_tx') is not None]
+
+    def on_tx(fr):
+        if fr.src != 'S':
+            return
+        k = txn[0]
+        txn[0] += 1
+        if nest[0]:
+            return
+        for c in list(pend):
+            if c['on_tx'] == k:
+                pend.remove(c)
+                nest[0] += 1
+                try:
+                    stats['nested_submissions'] += 1
+                    submit(c)
+                finally:
+                    nest[0] -= 1
+    bus.observers.append(on_tx)
     for c in scn['calls']:
+        if c.get('on_tx') is not None:
+            continue
         if c['ctx'] == 'timer':
             def arm(c=c):
                 S.ecu.add_timer(0.0005, lambda cookie, c=c: (submit(c), False)[1])
@@ -186,6 +215,10 @@ def shrink(scn):
         if c['ctx'] != 'app':
             x = copy.deepcopy(scn)
             x['calls'][i]['ctx'] = 'app'
+            yield x
+        if c.get('on_tx') is not None:
+            x = copy.deepcopy(scn)
+            del x['calls'][i]['on_tx']
             yield x
         if c['len'] > 1:
             for n in (1, 8):
